@@ -143,6 +143,28 @@ func c05Families(tier string) []explore.Family {
 			r.Violation(c05BodyKey("P5:comment-body-ignored", src, "endcomment"), map[string]any{"template": src}, `"MARK"`, o.String())
 		}
 	}})
+	// a string value (and a raw body) is emitted exactly even when the NEIGHBOURING tag or object carries a
+	// whitespace-control hyphen: hyphens act on the literal text next to a tag, never on what a value prints
+	wsAlpha := []string{" ", "\n", "\t", "a"}
+	nbForms := []struct{ src, want string }{
+		{"[{{ v }}{{- x }}]", "[%vX]"}, {"[{{ x -}}{{ v }}]", "[X%v]"}, {"[{{ v }}{%- if true -%}{{ v }}{%- endif -%}{{ v }}]", "[%v%v%v]"},
+		{"[{{ v }}{%- assign q = 1 -%}{{ v }}]", "[%v%v]"}, {"[{% raw %}%r{% endraw %}{{- x }}]", "[%vX]"}, {"[{{ x -}}{% raw %}%r{% endraw %}]", "[X%v]"},
+		{"[{{- v -}}]", "[%v]"}, {"[ {{- v -}} ]", "[%v]"}, {"[{% for i in (1..2) -%}{{ v }}{%- endfor %}]", "[%v%v]"}, {"[{{ v | append: '' }}{{- x }}]", "[%vX]"},
+		{"[{% capture c %}{{ v }}{% endcapture %}{{ c }}{{- x }}]", "[%vX]"},
+	}
+	fams = append(fams, explore.Family{Name: "value-next-to-a-hyphen", Count: seqCount(len(wsAlpha), 3) * int64(len(nbForms)), Run: func(i int64, r *explore.Rec) {
+		f := nbForms[i%int64(len(nbForms))]
+		v := joinSyms(wsAlpha, seqAt(len(wsAlpha), i/int64(len(nbForms))), "")
+		src := strings.ReplaceAll(f.src, "%r", v)
+		want := strings.ReplaceAll(f.want, "%v", v)
+		r.Eval()
+		r.Trace()
+		o := Render(c05.eng, src, map[string]any{"v": v, "x": "X"})
+		r.Class("value-by-hyphen/" + o.Class())
+		if o.Panic != nil || o.Err != nil || o.Out != want {
+			r.Violation("P6:value-emitted-exactly:next-to-hyphen", map[string]any{"template": src, "v": v}, strconv.Quote(want), o.String())
+		}
+	}})
 	// two blocks in one template, every pair of spellings of their opening and end tags (blanks, tabs, newlines,
 	// no padding, trim markers): each block ends at ITS OWN first end tag, whatever the other one looks like.
 	// Bodies and the text between carry no whitespace at their edges, so trim markers have nothing to remove.
